@@ -235,6 +235,107 @@ Proof. intro HF. unfold ser_object. rewrite utf8_valid_ascii_cons by reflexivity
 Theorem raw_payload_object ms : Forall mem_ok ms -> Forall mem_utf8 ms -> raw_payload (ser_object ms).
 Proof. intros H1 H2. split; [apply raw_ok_object, H1 | split; [apply ser_object_utf8, H2 | reflexivity]]. Qed.
 
+(* ---------- the struct dispatch (de_struct): map form on '{', sequence form on '[' ---------- *)
+
+Lemma object_members_head t m : object_members t = Some m -> exists s1, skip_ws t = x7b :: s1.
+Proof.
+  unfold object_members. destruct (skip_ws t) as [|c s1]; [discriminate|].
+  destruct (beqb c x7b) eqn:E; [|discriminate]. apply beqb_true in E. subst c. intros _. exists s1. reflexivity.
+Qed.
+
+Lemma array_elems_head t els : array_elems t = Some els -> exists s1, skip_ws t = x5b :: s1.
+Proof.
+  unfold array_elems, array_elems_fuel. destruct (skip_ws t) as [|c s1]; [discriminate|].
+  destruct (beqb c x5b) eqn:E; [|discriminate]. apply beqb_true in E. subst c. intros _. exists s1. reflexivity.
+Qed.
+
+Lemma de_struct_object {A : Type} (f : members -> option A) g t m : object_members t = Some m -> de_struct f g t = f m.
+Proof.
+  intro H. unfold de_struct. destruct (object_members_head t m H) as [s1 ->].
+  change (beqb x7b x7b) with true. cbv beta iota. rewrite H. reflexivity.
+Qed.
+
+Lemma de_struct_array {A : Type} (f : members -> option A) g t els : array_elems t = Some els -> de_struct f g t = g els.
+Proof.
+  intro H. unfold de_struct. destruct (array_elems_head t els H) as [s1 ->].
+  change (beqb x5b x7b) with false. change (beqb x5b x5b) with true. cbv beta iota. rewrite H. reflexivity.
+Qed.
+
+(* on a text whose first non-whitespace byte is '{' only the map reader is tried *)
+Lemma de_struct_some_object {A : Type} (f : members -> option A) g t s1 x :
+  skip_ws t = x7b :: s1 -> de_struct f g t = Some x -> exists m, object_members t = Some m /\ f m = Some x.
+Proof.
+  intros E. unfold de_struct. rewrite E. change (beqb x7b x7b) with true. cbv beta iota.
+  destruct (object_members t) as [m|]; [intro H; exists m; split; [reflexivity | exact H] | discriminate].
+Qed.
+
+(* neither an object nor an array text: rejected *)
+Lemma de_struct_none {A : Type} (f : members -> option A) g t :
+  object_members t = None -> array_elems t = None -> de_struct f g t = None.
+Proof.
+  intros H1 H2. unfold de_struct. destruct (skip_ws t) as [|c s1]; [reflexivity|].
+  rewrite H1, H2. destruct (beqb c x7b), (beqb c x5b); reflexivity.
+Qed.
+
+(* a visitor without visit_seq (the hand-written Response visitor) is just the map reader *)
+Lemma de_struct_map_only {A : Type} (f : members -> option A) t :
+  de_struct f (fun _ => None) t = match object_members t with Some m => f m | None => None end.
+Proof.
+  destruct (object_members t) as [m|] eqn:E; [apply (de_struct_object _ _ _ _ E)|].
+  unfold de_struct. destruct (skip_ws t) as [|c s1]; [reflexivity|]. rewrite E.
+  destruct (beqb c x7b); [reflexivity|]. destruct (beqb c x5b); [|reflexivity]. destruct (array_elems t); reflexivity.
+Qed.
+
+(* a sequence-form text is never read by the map reader and vice versa *)
+Lemma array_not_object t els : array_elems t = Some els -> object_members t = None.
+Proof.
+  intro H. destruct (array_elems_head t els H) as [s1 E]. unfold object_members. rewrite E. reflexivity.
+Qed.
+
+Lemma de_struct_ser_object {A : Type} (f : members -> option A) g ms :
+  Forall mem_ok ms -> de_struct f g (ser_object ms) = f ms.
+Proof. intro HF. apply de_struct_object, object_members_ser, HF. Qed.
+
+(* ---- arrays assembled from element texts: the splitter recovers exactly the elements ---- *)
+
+Definition ser_array (ts : list bytes) : bytes := x5b :: join [x2c] ts ++ [x5d].
+
+Lemma array_elems_fuel_eq f s : array_elems_fuel f s = split_elems f s.
+Proof. reflexivity. Qed.
+
+Lemma join_length_ge (rs : list bytes) :
+  (forall r, In r rs -> (1 <= length r)%nat) -> (length rs <= length (join [x2c] rs))%nat.
+Proof.
+  induction rs as [|r rs IH]; intro H; [cbn; lia|]. destruct rs as [|r2 rs].
+  - cbn [join length]. apply H. left. reflexivity.
+  - rewrite join_cons2, !app_length. cbn [length].
+    pose proof (H r (or_introl eq_refl)). assert (length (r2 :: rs) <= length (join [x2c] (r2 :: rs)))%nat.
+    { apply IH. intros r' Hr'. apply H. right. exact Hr'. }
+    cbn [length] in *. lia.
+Qed.
+
+Theorem array_elems_ser ts : ts <> [] -> Forall span_ok ts -> array_elems (ser_array ts) = Some ts.
+Proof.
+  intros Hne HF. unfold array_elems. rewrite array_elems_fuel_eq. unfold ser_array.
+  assert (HR : Forall raw_ok ts) by (eapply Forall_impl; [|exact HF]; intros r [R _]; exact R).
+  rewrite (proj2 (skip_array_join ts Hne HR)).
+  - f_equal. induction HF as [|r rs [_ W] _ IH]; [reflexivity|]. cbn [map]. rewrite W. f_equal.
+    destruct rs as [|r2 rs]; [reflexivity|]. apply IH; [discriminate|]. inversion HR. assumption.
+  - cbn [length]. rewrite app_length. cbn [length].
+    assert (length ts <= length (join [x2c] ts))%nat; [|lia].
+    apply join_length_ge. intros r Hr. rewrite Forall_forall in HR. apply raw_ok_nonempty, HR, Hr.
+Qed.
+
+Lemma de_struct_ser_array {A : Type} (f : members -> option A) g ts :
+  ts <> [] -> Forall span_ok ts -> de_struct f g (ser_array ts) = g ts.
+Proof. intros Hne HF. apply de_struct_array, array_elems_ser; assumption. Qed.
+
+Lemma span_ok_array ts : ts <> [] -> Forall span_ok ts -> span_ok (ser_array ts).
+Proof.
+  intros Hne HF. split; [|reflexivity]. apply raw_ok_array; [exact Hne|].
+  eapply Forall_impl; [|exact HF]. intros r [R _]. exact R.
+Qed.
+
 (* ---------- scalars in value position ---------- *)
 
 Lemma depth0 v : jdepth v = 0%nat -> (jdepth v < depth_limit)%nat.
@@ -376,7 +477,7 @@ Proof. destruct od; reflexivity. Qed.
 
 Lemma errobj_roundtrip_wf e : wf_errobj e -> parse_errobj (ser_errobj e) = Some e.
 Proof.
-  intro W. unfold parse_errobj. rewrite ser_errobj_eq, object_members_ser by apply (errobj_members_ok e W).
+  intro W. unfold parse_errobj. rewrite ser_errobj_eq, de_struct_ser_object by apply (errobj_members_ok e W).
   destruct W as (Hc & Um & Hd). unfold errobj_members. rewrite parse_errobj_members_eq.
   rewrite (parse_text_code _ Hc), (as_str_ser _ Um), (i32_of_code _ Hc).
   destruct e as [c m [d|]]; cbn [e_code e_message e_data] in *; [|reflexivity].
@@ -442,7 +543,7 @@ Theorem request_roundtrip r :
   match rq_params r with Some p => raw_payload p /\ nonnull p | None => True end ->
   parse_request (ser_request r) = Some r.
 Proof.
-  intros Wi Um Hp. unfold parse_request. rewrite ser_request_eq, object_members_ser.
+  intros Wi Um Hp. unfold parse_request. rewrite ser_request_eq, de_struct_ser_object.
   - unfold request_members. rewrite as_request_eq, is_two_two, (id_roundtrip _ Wi), (as_str_ser _ Um).
     destruct r as [i m [p|]]; cbn [rq_id rq_method rq_params] in *; [|reflexivity].
     rewrite (as_opt_raw_payload p) by apply Hp. reflexivity.
@@ -475,7 +576,7 @@ Theorem notification_roundtrip me p :
   match p with Some p' => raw_payload p' /\ nonnull p' | None => True end ->
   parse_notification (ser_notification me p) = Some (me, p).
 Proof.
-  intros Um Hp. unfold parse_notification. rewrite ser_notification_eq, object_members_ser.
+  intros Um Hp. unfold parse_notification. rewrite ser_notification_eq, de_struct_ser_object.
   - unfold notification_members. rewrite as_notification_eq, is_two_two, (as_str_ser _ Um).
     destruct p as [p|]; cbn [notif_param_text]; [|reflexivity].
     rewrite (as_opt_raw_payload p) by apply Hp. reflexivity.
@@ -768,8 +869,8 @@ Lemma parse_sub_payload_ser sid is_err raw : wf_subid sid -> raw_payload raw ->
   parse_sub_payload (sub_key (negb is_err)) (ser_object (sub_payload_members sid is_err raw)) = None.
 Proof.
   intros Ws Hr. unfold parse_sub_payload.
-  rewrite object_members_ser by (apply sub_payload_members_ok; assumption).
-  unfold sub_payload_members.
+  rewrite !de_struct_ser_object by (apply sub_payload_members_ok; assumption).
+  unfold as_sub_payload, sub_payload_members.
   destruct (sub_payload_fields (ser_subid sid) is_err raw) as (F1 & F2 & F3). rewrite F1, F2, F3.
   split; [|reflexivity].
   rewrite (subid_roundtrip _ Ws). unfold as_raw. destruct Hr as (_ & U & _). rewrite U. reflexivity.
@@ -796,8 +897,8 @@ Theorem sub_notif_roundtrip me sid (is_err : bool) raw :
 Proof.
   intros Um Ws Hr.
   destruct (parse_sub_payload_ser sid is_err raw Ws Hr) as [P _].
-  unfold parse_sub_notif. rewrite ser_sub_notif_eq, object_members_ser by (apply sub_notif_members_ok; assumption).
-  unfold sub_notif_members.
+  unfold parse_sub_notif. rewrite ser_sub_notif_eq, de_struct_ser_object by (apply sub_notif_members_ok; assumption).
+  unfold as_sub_notif, sub_notif_members.
   destruct (sub_notif_fields (ser_str me) (ser_object (sub_payload_members sid is_err raw))) as (F1 & F2 & F3).
   rewrite F1, F2, F3, is_two_two, (as_str_ser _ Um).
   destruct is_err; cbv [sub_key] in P; rewrite P; reflexivity.
@@ -810,11 +911,221 @@ Theorem sub_notif_kind_distinguished me sid (is_err : bool) raw :
 Proof.
   intros Um Ws Hr.
   destruct (parse_sub_payload_ser sid is_err raw Ws Hr) as [_ P].
-  unfold parse_sub_notif. rewrite ser_sub_notif_eq, object_members_ser by (apply sub_notif_members_ok; assumption).
-  unfold sub_notif_members.
+  unfold parse_sub_notif. rewrite ser_sub_notif_eq, de_struct_ser_object by (apply sub_notif_members_ok; assumption).
+  unfold as_sub_notif, sub_notif_members.
   destruct (sub_notif_fields (ser_str me) (ser_object (sub_payload_members sid is_err raw))) as (F1 & F2 & F3).
   rewrite F1, F2, F3, is_two_two, (as_str_ser _ Um).
   destruct is_err; cbv [sub_key negb] in P; rewrite P; reflexivity.
+Qed.
+
+(* ---------- sequence forms of the derived structs ---------- *)
+
+(* Response: deserialize_struct with a visitor that implements visit_map only *)
+Lemma parse_response_de_struct t : parse_response t = de_struct parse_response_members (fun _ => None) t.
+Proof. unfold parse_response. symmetry. apply de_struct_map_only. Qed.
+
+(* for ALL field texts: the array [c, m, d] is read exactly as the object {"code":c,"message":m,"data":d} *)
+Theorem seq_form_errobj_fields c m d : span_ok c -> span_ok m -> span_ok d ->
+  parse_errobj (ser_array [c; m; d]) = parse_errobj (ser_object [(k_code, c); (k_message, m); (k_data, d)]).
+Proof.
+  intros Hc Hm Hd. unfold parse_errobj.
+  rewrite de_struct_ser_array; [|discriminate|repeat (constructor; try assumption)].
+  rewrite de_struct_ser_object; [reflexivity|].
+  repeat (constructor; [split; [reflexivity | assumption]|]). constructor.
+Qed.
+
+Definition opt_text (o : option bytes) : bytes := match o with Some d => d | None => b#"null" end.
+
+Lemma span_ok_null : span_ok b#"null".
+Proof. apply (span_ok_ser JNull). reflexivity. Qed.
+
+Lemma span_ok_opt_text o : wf_opt_payload o -> span_ok (opt_text o).
+Proof. destruct o as [d|]; cbn [opt_text wf_opt_payload]; [intro H; apply raw_payload_span, H | intros _; exact span_ok_null]. Qed.
+
+Lemma as_opt_raw_opt_text o : wf_opt_payload o -> as_opt_raw (opt_text o) = Some o.
+Proof. destruct o as [d|]; cbn [opt_text wf_opt_payload]; [intro H; apply as_opt_raw_payload; apply H | reflexivity]. Qed.
+
+Definition errobj_seq_fields (e : errobj) : list bytes := [print_Z (e_code e); ser_str (e_message e); opt_text (e_data e)].
+
+Lemma errobj_seq_fields_ok e : wf_errobj e -> Forall span_ok (errobj_seq_fields e).
+Proof.
+  intros (Hc & Um & Hd). unfold errobj_seq_fields.
+  constructor; [apply span_ok_code, Hc|]. constructor; [apply span_ok_str, Um|].
+  constructor; [apply span_ok_opt_text, Hd | constructor].
+Qed.
+
+Lemma seq_errobj_fields e : wf_errobj e -> seq_errobj (errobj_seq_fields e) = Some e.
+Proof.
+  intros (Hc & Um & Hd). unfold errobj_seq_fields, seq_errobj.
+  rewrite (parse_text_code _ Hc), (as_str_ser _ Um), (i32_of_code _ Hc), (as_opt_raw_opt_text _ Hd).
+  destruct e; reflexivity.
+Qed.
+
+(* [code,"message",data-or-null] is read as the same error object as the object form the library writes *)
+Theorem seq_form_errobj e :
+  (-2147483648 <= e_code e < 2147483648)%Z -> utf8_valid (e_message e) = true ->
+  match e_data e with Some d => raw_payload d /\ nonnull d | None => True end ->
+  parse_errobj (ser_array [print_Z (e_code e); ser_str (e_message e); match e_data e with Some d => d | None => b#"null" end])
+    = Some e /\
+  parse_errobj (ser_array [print_Z (e_code e); ser_str (e_message e); match e_data e with Some d => d | None => b#"null" end])
+    = parse_errobj (ser_errobj e).
+Proof.
+  intros H1 H2 H3. assert (W : wf_errobj e) by (repeat split; assumption || apply H1).
+  assert (E : parse_errobj (ser_array (errobj_seq_fields e)) = Some e).
+  { unfold parse_errobj. rewrite de_struct_ser_array; [apply seq_errobj_fields, W | discriminate | apply errobj_seq_fields_ok, W]. }
+  rewrite (errobj_roundtrip_wf e W). split; exact E.
+Qed.
+
+(* an array text is read through visit_seq only, and visit_seq + end_seq demand the exact number of fields;
+   the hand-written Response visitor has no visit_seq at all *)
+Theorem seq_form_exact_length t els : array_elems t = Some els ->
+  (length els <> 3%nat -> parse_errobj t = None) /\
+  (length els <> 4%nat -> parse_request t = None) /\
+  (length els <> 3%nat -> parse_notification t = None) /\
+  (length els <> 1%nat -> parse_invalid t = None) /\
+  (forall key, length els <> 2%nat -> parse_sub_payload key t = None) /\
+  (forall key, length els <> 3%nat -> parse_sub_notif key t = None) /\
+  parse_response t = None.
+Proof.
+  intro H. unfold parse_errobj, parse_request, parse_notification, parse_invalid, parse_sub_payload, parse_sub_notif.
+  rewrite !(de_struct_array _ _ _ _ H).
+  split; [|split; [|split; [|split; [|split; [|split]]]]].
+  - intro L. destruct els as [|e1 [|e2 [|e3 [|e4 els]]]]; try reflexivity. exfalso; apply L; reflexivity.
+  - intro L. destruct els as [|e1 [|e2 [|e3 [|e4 [|e5 els]]]]]; try reflexivity. exfalso; apply L; reflexivity.
+  - intro L. destruct els as [|e1 [|e2 [|e3 [|e4 els]]]]; try reflexivity. exfalso; apply L; reflexivity.
+  - intro L. destruct els as [|e1 [|e2 els]]; try reflexivity. exfalso; apply L; reflexivity.
+  - intros key L. rewrite (de_struct_array _ _ _ _ H).
+    destruct els as [|e1 [|e2 [|e3 els]]]; try reflexivity. exfalso; apply L; reflexivity.
+  - intros key L. rewrite (de_struct_array _ _ _ _ H).
+    destruct els as [|e1 [|e2 [|e3 [|e4 els]]]]; try reflexivity. exfalso; apply L; reflexivity.
+  - unfold parse_response. rewrite (array_not_object _ _ H). reflexivity.
+Qed.
+
+(* the sequence form at the right length reads exactly the positional fields *)
+Theorem seq_form_positional t :
+  (forall c m d, array_elems t = Some [c; m; d] -> parse_errobj t = seq_errobj [c; m; d]) /\
+  (forall j i me p, array_elems t = Some [j; i; me; p] -> parse_request t = seq_request [j; i; me; p]) /\
+  (forall j me p, array_elems t = Some [j; me; p] -> parse_notification t = seq_notification [j; me; p]) /\
+  (forall i, array_elems t = Some [i] -> parse_invalid t = parse_id i).
+Proof.
+  repeat split; intros; unfold parse_errobj, parse_request, parse_notification, parse_invalid;
+    rewrite (de_struct_array _ _ _ _ H); reflexivity.
+Qed.
+
+Theorem seq_form_request r :
+  wf_id (rq_id r) -> utf8_valid (rq_method r) = true ->
+  match rq_params r with Some p => raw_payload p /\ nonnull p | None => True end ->
+  parse_request (ser_array [ser_str v_two; ser_id (rq_id r); ser_str (rq_method r);
+                            match rq_params r with Some p => p | None => b#"null" end]) = Some r.
+Proof.
+  intros Wi Um Hp. change (match rq_params r with Some p => p | None => b#"null" end) with (opt_text (rq_params r)).
+  unfold parse_request. rewrite de_struct_ser_array.
+  - unfold seq_request. rewrite is_two_two, (id_roundtrip _ Wi), (as_str_ser _ Um), (as_opt_raw_opt_text _ Hp).
+    destruct r; reflexivity.
+  - discriminate.
+  - constructor; [apply span_ok_two|]. constructor; [apply span_ok_id, Wi|]. constructor; [apply span_ok_str, Um|].
+    constructor; [apply span_ok_opt_text, Hp | constructor].
+Qed.
+
+Theorem seq_form_notification me p :
+  utf8_valid me = true ->
+  match p with Some p' => raw_payload p' /\ nonnull p' | None => True end ->
+  parse_notification (ser_array [ser_str v_two; ser_str me; match p with Some p' => p' | None => b#"null" end]) = Some (me, p).
+Proof.
+  intros Um Hp. change (match p with Some p' => p' | None => b#"null" end) with (opt_text p).
+  unfold parse_notification. rewrite de_struct_ser_array.
+  - unfold seq_notification. rewrite is_two_two, (as_str_ser _ Um), (as_opt_raw_opt_text _ Hp). reflexivity.
+  - discriminate.
+  - constructor; [apply span_ok_two|]. constructor; [apply span_ok_str, Um|].
+    constructor; [apply span_ok_opt_text, Hp | constructor].
+Qed.
+
+Theorem seq_form_invalid i : wf_id i -> parse_invalid (ser_array [ser_id i]) = Some i.
+Proof.
+  intro Wi. unfold parse_invalid. rewrite de_struct_ser_array.
+  - cbn [seq_invalid]. apply id_roundtrip, Wi.
+  - discriminate.
+  - constructor; [apply span_ok_id, Wi | constructor].
+Qed.
+
+(* the payload in sequence form [subscription, value]: the member name is gone, so it is read under EITHER key *)
+Lemma parse_sub_payload_seq key sid raw : wf_subid sid -> raw_payload raw ->
+  parse_sub_payload key (ser_array [ser_subid sid; raw]) = Some (sid, raw).
+Proof.
+  intros Ws Hr. unfold parse_sub_payload. rewrite de_struct_ser_array.
+  - unfold seq_sub_payload. rewrite (subid_roundtrip _ Ws). unfold as_raw. destruct Hr as (_ & U & _). rewrite U. reflexivity.
+  - discriminate.
+  - constructor; [apply span_ok_subid, Ws|]. constructor; [apply raw_payload_span, Hr | constructor].
+Qed.
+
+Lemma span_ok_sub_payload_seq sid raw : wf_subid sid -> raw_payload raw -> span_ok (ser_array [ser_subid sid; raw]).
+Proof.
+  intros Ws Hr. apply span_ok_array; [discriminate|].
+  constructor; [apply span_ok_subid, Ws|]. constructor; [apply raw_payload_span, Hr | constructor].
+Qed.
+
+Lemma parse_sub_notif_outer_obj key me pt x : utf8_valid me = true -> span_ok pt ->
+  parse_sub_payload key pt = Some x ->
+  parse_sub_notif key (ser_object [(k_jsonrpc, ser_str v_two); (k_method, ser_str me); (k_params, pt)]) = Some (me, fst x, snd x).
+Proof.
+  intros Um Sp P. unfold parse_sub_notif. rewrite de_struct_ser_object.
+  - unfold as_sub_notif. destruct (sub_notif_fields (ser_str me) pt) as (F1 & F2 & F3).
+    rewrite F1, F2, F3, is_two_two, (as_str_ser _ Um), P. destruct x; reflexivity.
+  - constructor; [split; [reflexivity | apply span_ok_two]|].
+    constructor; [split; [reflexivity | apply span_ok_str, Um]|].
+    constructor; [split; [reflexivity | exact Sp] | constructor].
+Qed.
+
+Lemma parse_sub_notif_outer_seq key me pt x : utf8_valid me = true -> span_ok pt ->
+  parse_sub_payload key pt = Some x ->
+  parse_sub_notif key (ser_array [ser_str v_two; ser_str me; pt]) = Some (me, fst x, snd x).
+Proof.
+  intros Um Sp P. unfold parse_sub_notif. rewrite de_struct_ser_array.
+  - unfold seq_sub_notif. rewrite is_two_two, (as_str_ser _ Um), P. destruct x; reflexivity.
+  - discriminate.
+  - constructor; [apply span_ok_two|]. constructor; [apply span_ok_str, Um|]. constructor; [exact Sp | constructor].
+Qed.
+
+(* a subscription notification with the sequence form at either or both levels is read as the same
+   (method, subscription id, payload) as the object form the library writes *)
+Theorem seq_form_sub_notif me sid (is_err : bool) raw :
+  utf8_valid me = true -> wf_subid sid -> raw_payload raw ->
+  let key := if is_err then k_error else k_result in
+  let pay_obj := ser_object [(k_subscription, ser_subid sid); (key, raw)] in
+  let pay_seq := ser_array [ser_subid sid; raw] in
+  let outer_obj := fun p => ser_object [(k_jsonrpc, ser_str v_two); (k_method, ser_str me); (k_params, p)] in
+  let outer_seq := fun p => ser_array [ser_str v_two; ser_str me; p] in
+  outer_obj pay_obj = ser_sub_notif me sid is_err raw /\
+  parse_sub_notif key (outer_obj pay_obj) = Some (me, sid, raw) /\
+  parse_sub_notif key (outer_obj pay_seq) = Some (me, sid, raw) /\
+  parse_sub_notif key (outer_seq pay_obj) = Some (me, sid, raw) /\
+  parse_sub_notif key (outer_seq pay_seq) = Some (me, sid, raw).
+Proof.
+  intros Um Ws Hr. cbv zeta.
+  assert (E : ser_object [(k_jsonrpc, ser_str v_two); (k_method, ser_str me);
+                          (k_params, ser_object [(k_subscription, ser_subid sid); (if is_err then k_error else k_result, raw)])]
+              = ser_sub_notif me sid is_err raw) by (symmetry; apply ser_sub_notif_eq).
+  destruct (parse_sub_payload_ser sid is_err raw Ws Hr) as [Po _].
+  change (sub_key is_err) with (if is_err then k_error else k_result) in Po. unfold sub_payload_members, sub_key in Po.
+  pose proof (parse_sub_payload_seq (if is_err then k_error else k_result) sid raw Ws Hr) as Ps.
+  assert (So : span_ok (ser_object [(k_subscription, ser_subid sid); (if is_err then k_error else k_result, raw)])).
+  { apply (span_ok_object _ (sub_payload_members_ok sid is_err raw Ws Hr)). }
+  pose proof (span_ok_sub_payload_seq sid raw Ws Hr) as Ss.
+  split; [exact E|]. split; [rewrite E; apply sub_notif_roundtrip; assumption|].
+  split; [apply (parse_sub_notif_outer_obj _ me _ (sid, raw) Um Ss Ps)|].
+  split; [apply (parse_sub_notif_outer_seq _ me _ (sid, raw) Um So Po) | apply (parse_sub_notif_outer_seq _ me _ (sid, raw) Um Ss Ps)].
+Qed.
+
+(* ... and with the payload in sequence form the item / error distinction is lost: the same text is accepted by the
+   SubscriptionResponse reader AND by the SubscriptionError reader (the client tries the former first) *)
+Theorem seq_form_sub_kind_lost me sid raw key1 key2 :
+  utf8_valid me = true -> wf_subid sid -> raw_payload raw ->
+  let t := ser_object [(k_jsonrpc, ser_str v_two); (k_method, ser_str me); (k_params, ser_array [ser_subid sid; raw])] in
+  parse_sub_notif key1 t = Some (me, sid, raw) /\ parse_sub_notif key2 t = Some (me, sid, raw).
+Proof.
+  intros Um Ws Hr. cbv zeta. pose proof (span_ok_sub_payload_seq sid raw Ws Hr) as Ss.
+  split; [apply (parse_sub_notif_outer_obj key1 me _ (sid, raw) Um Ss (parse_sub_payload_seq key1 sid raw Ws Hr))
+         | apply (parse_sub_notif_outer_obj key2 me _ (sid, raw) Um Ss (parse_sub_payload_seq key2 sid raw Ws Hr))].
 Qed.
 
 (* ---------- non-vacuity: concrete values satisfying the hypotheses ---------- *)
